@@ -470,6 +470,22 @@ def run(prop, tier, seed):
                 scenarios.append(dict(id=sid, world=dict(nkeys=2), conc=concs[0][1], no_export=True,
                                       ops=[dict(id="mk", kind="create", n=4), dict(id="par", kind="par", gate=False, arrivals=True, ops=pops)]))
                 meta[sid] = None
+        fu_meta = {}
+        if prop == "C15":
+            # FIRST USE (Unlock.tla): on a fresh instance every account is still locked; requests naming the same accounts in different
+            # orders are released at the same moment, so that their pre-check workers meet the locked accounts together
+            info["first_use_model"] = first_use_model(tier, wd, info)
+            for fi in range(8 if tier == "quick" else 48):
+                cname_, wants_ = FIRST_USE[fi % len(FIRST_USE)]
+                rops = []
+                for ri, (rid_, accts_) in enumerate(sorted(wants_.items())):
+                    ents_ = [dict(k="abc".index(a_), s=ri, t=ri + 1, root="F") for a_ in accts_]
+                    rops.append(dict(id=rid_, kind="att" if len(ents_) == 1 else "atts", by=("name", "key")[(fi + ri) % 2], ents=ents_))
+                sid = "%s-firstuse-%s-%d" % (prop, cname_, fi)
+                scenarios.append(dict(id=sid, world=dict(nkeys=3, tag="firstuse-%d-%d" % (seed, fi)), conc=concs[0][1], no_export=True, gomaxprocs=(16, 2, 4, 8)[fi % 4],
+                                      ops=[dict(id="par", kind="par", gate=False, ops=rops)]))
+                meta[sid] = None
+                fu_meta[sid] = wants_
         all_events, deadlocks, stuck = drive(scenarios, wd)
         # the SHIPPED PROGRAM under real concurrency: the free-running groups are also sent to the real dirk binary, every request
         # from its own goroutine over TLS; the final database is read through badger
@@ -615,6 +631,8 @@ def run(prop, tier, seed):
             for d_ in repotrace.binary_phase(wd, info, seed, tier):
                 drift.append(dict(note=d_))
             info["detail"] = dict(detailed_traces=len(dindex), detailed_events=len(dlines), accepted=dok, first_unexplained=detail_drift, binding_selftest=selftest)
+        if fu_meta:
+            info["first_use_traces"] = first_use_traces(fu_meta, all_events, {sid for sid, _ in deadlocks}, wd, info, drift)
         rc = verdict.finish()
         gated = [s for s in scenarios if s["ops"][0].get("gate")]
         cov = dict(states=info["states"], transitions=info["transitions"], traces_validated_against_impl=len(all_events),
@@ -624,7 +642,7 @@ def run(prop, tier, seed):
                    model_runs=info["model_runs"], mutants=info["mutants"], mutants_expected=len(MUTANTS[prop]), mutants_killed=len(info["mutants"]),
                    schedules_imposed=len(gated), free_running_groups=len(scenarios) - len(gated), free_running_groups_against_the_dirk_binary=bin_groups,
                    schedules_with_deviation=ndev, blocked_observations=nblocked, deadlocks_observed=len(deadlocks),
-                   drift=drift[:10], drift_count=len(drift), exhaustive=False, layer_d_trace_validation=info.get("detail"), repo_tests_as_traces=info.get("repo_tests_as_traces"), real_binary_traces=info.get("real_binary_traces"),
+                   drift=drift[:10], drift_count=len(drift), exhaustive=False, layer_d_trace_validation=info.get("detail"), repo_tests_as_traces=info.get("repo_tests_as_traces"), first_use_model=info.get("first_use_model"), first_use_traces=info.get("first_use_traces"), real_binary_traces=info.get("real_binary_traces"),
                    checker_cmd="tlc MCSigner / SignerSim / AtomicTrace (see lib/concfamily.py)")
         write_evidence(prop, tier, seed, "model_checking", cov, time.time() - t0, violations=len(verdict.violations),
                        assumptions=["gates at locker calls and Store hooks are the only scheduling points that matter for the slashing records",
@@ -634,6 +652,98 @@ def run(prop, tier, seed):
         return rc
     finally:
         cleanup(wd)
+
+
+# ------------------------------------------------------------------------------------------ first use (Unlock.tla)
+FIRST_USE = [("cross", dict(r1=["a", "b"], r2=["b", "a"], r3=["b", "c", "a"])), ("one", dict(r1=["a"], r2=["a"], r3=["a"])),
+             ("twice", dict(r1=["a", "a"], r2=["a", "b"], r3=["b", "a"])), ("four", dict(r1=["a", "b"], r2=["b", "a"], r3=["a"], r4=["b"]))]
+FIRST_USE_MC = dict(cross=("R3", "WantsCross"), one=("R3", "WantsOne"), twice=("R3", "WantsTwice"), four=("R4", "WantsFour"))
+UNLOCK_INV = ["TypeOK", "NoDeadlock", "NoSpuriousDenial", "OpenAfterUnlock"]
+
+
+def first_use_model(tier, wd, info):
+    """Unlock.tla: the shipped design (every worker unlocks for itself) and the correct sharing design pass in every configuration - also
+    with a LockAccount arriving in between; 'one token for all waiters' and 'report locked while an unlock is in progress' are killed."""
+    runs, killed = 0, []
+    for nm, (reqs, wants) in FIRST_USE_MC.items():
+        for mode, relock in (("each", 0), ("each", 1), ("waitClose", 0)):
+            if tier == "quick" and nm in ("twice", "four") and (mode, relock) != ("each", 0):
+                continue
+            c = dict(Accts={"a", "b", "c"}, Reqs=Raw("<- " + reqs), Wants=Raw("<- " + wants), ShareMode=mode, MaxRelock=relock)
+            r = tlc("MCUnlock", make_cfg(c, invariants=UNLOCK_INV, deadlock=False), wd, name="Unlock_%s_%s%d" % (nm, mode, relock), timeout=600)
+            require_ok(r, "Unlock(%s, %s, relock %d)" % (nm, mode, relock))
+            info["states"] += r.distinct
+            info["transitions"] += r.generated
+            runs += 1
+    c = dict(Accts={"a", "b", "c"}, Reqs=Raw("<- R3"), Wants=Raw("<- WantsCross"), ShareMode="each", MaxRelock=0)
+    r = tlc("MCUnlock", make_cfg(c, spec="FairSpec", properties=["Termination"], deadlock=False), wd, name="UnlockLive", timeout=600)
+    require_ok(r, "Unlock liveness")
+    info["states"] += r.distinct
+    info["transitions"] += r.generated
+    for mode, nm in (("waitToken", "one"), ("waitToken", "cross"), ("denyBusy", "cross")):
+        reqs, wants = FIRST_USE_MC[nm]
+        c = dict(Accts={"a", "b", "c"}, Reqs=Raw("<- " + reqs), Wants=Raw("<- " + wants), ShareMode=mode, MaxRelock=0)
+        rm = tlc("MCUnlock", make_cfg(c, invariants=UNLOCK_INV, deadlock=False), wd, name="Unlock_mut_%s_%s" % (mode, nm), timeout=600)
+        require_killed(rm, "Unlock mutant ShareMode=%s (%s)" % (mode, nm))
+        killed.append(dict(mutant=dict(ShareMode=mode), configuration=nm, killed_by=[rm.violated]))
+        info["mutants"].append(dict(mutant=dict(ShareMode=mode), module="Unlock", killed_by=[rm.violated]))
+    return dict(configurations_passed=runs, mutants=killed)
+
+
+def first_use_lines(wants, evs, corrupt=False):
+    acct = {"W1/a0": "a", "W1/a1": "b", "W1/a2": "c"}
+    lines = [dict(ev="Config", r="", a="", ok=True, accts=["a", "b", "c"], reqs=[dict(r=r_, wants=w_) for r_, w_ in sorted(wants.items())])]
+    for e in evs:
+        if e["ev"] == "UnlockEnter" and e["r"] in wants:
+            lines.append(dict(ev="UnlockEnter", r=e["r"], a=acct[e["a"]], ok=True))
+        elif e["ev"] == "PreCheckUnlock" and e["r"] in wants and "a" in e:
+            lines.append(dict(ev="UnlockExit", r=e["r"], a=acct[e["a"]], ok=bool(e["ok"])))
+        elif e["ev"] == "Respond" and e["r"] in wants:
+            lines.append(dict(ev="Respond", r=e["r"], a="", ok=True))
+    if corrupt:
+        # binding self-test: the last return of an unlock is turned into "still locked"
+        for ln in reversed(lines):
+            if ln["ev"] == "UnlockExit":
+                ln["ok"] = False
+                break
+    return lines
+
+
+def first_use_traces(fu_meta, all_events, dead, wd, info, drift):
+    """Layer D: what the wrapper around the real unlocker saw in every first-use group must be a behaviour of Unlock.tla (shipped design)."""
+    n = acc = enters = 0
+    selftest = None
+    for sid, wants in sorted(fu_meta.items()):
+        evs = all_events.get(sid)
+        if not evs or sid in dead or not any(e["ev"] == "End" for e in evs):
+            continue
+        for corrupt in ((False, True) if selftest is None else (False,)):
+            lines = first_use_lines(wants, evs, corrupt)
+            rundir = os.path.join(wd, "UnlockTrace_%d%s" % (n, "c" if corrupt else ""))
+            os.makedirs(rundir, exist_ok=True)
+            with open(os.path.join(rundir, "trace.ndjson"), "w") as fh:
+                for ln in lines:
+                    fh.write(json.dumps(ln) + "\n")
+            tr = tlc("UnlockTrace", make_cfg(dict(TraceFile="trace.ndjson"), constraint="HighWater", postcondition="Accepted"), wd, name=os.path.basename(rundir), workers=1, timeout=300,
+                     dump_trace=False)
+            info["states"] += tr.distinct
+            info["transitions"] += tr.generated
+            if corrupt:
+                if not any(ln["ev"] == "UnlockExit" for ln in lines):
+                    continue
+                selftest = dict(corrupted_trace_rejected=not tr.ok)
+                if tr.ok:
+                    raise Inconclusive("UnlockTrace accepted a trace in which an unlock came back 'still locked': the trace specification binds nothing")
+                continue
+            n += 1
+            enters += sum(1 for ln in lines if ln["ev"] == "UnlockEnter")
+            if tr.ok:
+                acc += 1
+            elif len(drift) < 30:
+                drift.append(dict(note="first-use group %s: what the unlocker wrapper saw is not a behaviour of Unlock.tla (shipped design): %s %s" % (sid, tr.violated, (tr.error or "")[:200])))
+    if n and enters < n:
+        raise Inconclusive("first-use groups: only %d unlock calls were seen in %d groups (the accounts were not locked?)" % (enters, n))
+    return dict(groups_validated=n, accepted=acc, unlock_calls_seen=enters, binding_selftest=selftest)
 
 
 def replay(prop, path):
